@@ -149,6 +149,22 @@ def fingerprint(o):
 # builders
 
 
+class Callers(dict):
+    """Caller-supplied arrays of a constructor call; fp0 is their fingerprint taken
+    *before* the library saw them."""
+
+    fp0 = None
+
+    def changed(self):
+        return fingerprint(list(self.values())) != self.fp0
+
+
+def _callers(d):
+    c = Callers(d)
+    c.fp0 = fingerprint(list(c.values()))
+    return c
+
+
 def build_scores(spec):
     """spec -> (object, caller_arrays dict). Caller arrays are kept so that the
     simulator can check that the library never writes to them."""
@@ -163,6 +179,7 @@ def build_scores(spec):
     if spec.get("readonly"):
         pos.flags.writeable = False
         neg.flags.writeable = False
+    callers = _callers({"pos": pos, "neg": neg})
     o = L.Scores(
         pos, neg,
         nb_easy_pos=int(spec.get("nb_easy_pos", 0)), nb_easy_neg=int(spec.get("nb_easy_neg", 0)),
@@ -171,7 +188,7 @@ def build_scores(spec):
     )
     for _ in range(int(spec.get("swaps", 0))):
         o = o.swap()
-    return o, {"pos": pos, "neg": neg}
+    return o, callers
 
 
 def build_group_scores(spec):
@@ -202,13 +219,14 @@ def build_group_scores(spec):
         perm = np.asarray(spec.get("perm", list(range(len(labels)))), dtype=int)
         if len(perm) == len(labels) and not is_sorted:
             labels, scores, groups = labels[perm], scores[perm], groups[perm]
-        callers = {"labels": labels, "scores": scores, "groups": groups}
+        callers = _callers({"labels": labels, "scores": scores, "groups": groups})
         o = L.GroupScores.from_labels(labels, scores, groups, is_sorted=is_sorted, **kw)
     else:
         names = spec.get("group_names")
         if names is not None:
             names = np.asarray(names, dtype=str if gdt == "str" else np.int64)
             callers["group_names"] = names
+        callers = _callers(callers)
         o = L.GroupScores(pos, neg, pos_groups=pg, neg_groups=ng, group_names=names, is_sorted=is_sorted, **kw)
     for _ in range(int(spec.get("swaps", 0))):
         o = o.swap()
